@@ -5,12 +5,14 @@ import (
 	"io"
 	"os"
 	"path/filepath"
+	"runtime"
 	"sort"
 	"strconv"
 	"strings"
 	"sync"
 	"sync/atomic"
 	"testing"
+	"time"
 
 	"github.com/ipfs/ipfs-cluster/consensus/raft"
 	"github.com/ipfs/ipfs-cluster/datastore/inmem"
@@ -408,6 +410,13 @@ func explore(root string, sec *ev.Section, n, depth int, dedup bool, pid peer.ID
 			post := observe(child)
 			stats.transitions++
 			R.Transitions(1)
+			if stats.transitions%300 == 0 {
+				// the code under test leaks one descriptor per snapshot read until
+				// the os.File finalizer runs: collect synchronously on long runs
+				runtime.GC()
+				time.Sleep(2 * time.Millisecond)
+				runtime.GC()
+			}
 
 			gap := "contiguous"
 			if pi, _ := inRange(pre.Backups, n); !contiguous(pi) {
